@@ -466,9 +466,43 @@ def rule_solve_exit(chk, prog):
         (r.bad if bad else r.ok)(ns + "::IncSolver::splitBlocks", sb.where(), bad or "")
 
 
+def rule_split_threshold(chk, prog):
+    r = chk.rule("SPLIT-THRESHOLD", "the test that releases an active constraint (Solver::refine, IncSolver::splitBlocks in both solver copies) compares its "
+                 "Lagrange multiplier with a CONSTANT small negative tolerance: a threshold that grows with the variables' weights (or any other "
+                 "run-time quantity) leaves constraints next to heavy variables active although the objective would drop, and the result is "
+                 "feasible but not optimal", floor=3)
+    for q in ("vpsc::Solver::refine", "vpsc::IncSolver::splitBlocks", "Avoid::IncSolver::splitBlocks"):
+        fn = prog.fn(q)
+        tests = []
+        for n in fn.nodes():
+            if n.get("k") == "BinaryOperator" and n.get("op") in ("<", "<=", ">", ">="):
+                l, rr = n["ch"][0], n["ch"][1]
+                for side, other in ((l, rr), (rr, l)):
+                    t = norm(side)
+                    if t.endswith(".lm") or t == "lm":
+                        tests.append((n, other))
+        r.count()
+        if not tests:
+            raise AnalysisBroken("%s: the multiplier test was not found" % q)
+        bad = None
+        for n, other in tests:
+            dyn = None
+            for x in walk(other):
+                if x.get("k") == "DeclRefExpr" and x.get("rk") in ("Var", "ParmVar"):
+                    v = prog.vars.get(str(x.get("ref")))
+                    if v is None or "const" not in str(v.get("t", "")):
+                        dyn = dyn or str(x.get("ref"))
+                elif x.get("k") in ("MemberExpr", "CallExpr", "CXXMemberCallExpr", "CXXThisExpr"):
+                    dyn = dyn or norm(x)[:40]
+            if dyn:
+                bad = (n, "the multiplier is compared with `%s`, which depends on `%s`" % (norm(other)[:70], dyn))
+        (r.bad(q, fn.loc(bad[0]), bad[1]) if bad else r.ok(q, fn.loc(tests[0][0]), "threshold %s" % norm(tests[0][1])))
+
+
 def run(chk):
     prog = chk.load()
     PROG[0] = prog
+    chk.guard(rule_split_threshold, chk, prog)
     chk.guard(rule_block_optimum, chk, prog)
     chk.guard(rule_minlm_argmin, chk, prog)
     chk.guard(rule_refine_rescan, chk, prog)
